@@ -171,6 +171,27 @@ class SymArr:
         return self.transpose()
 
     # ---------------------------------------------------------------- indexing
+    def __getitem__(self, key):
+        kt = key if isinstance(key, tuple) else (key,)
+        if any(k is None for k in kt):
+            # np.newaxis: index without the None entries, then insert axes of length one
+            base = self._getitem(tuple(k for k in kt if k is not None)) if any(k is not None for k in kt) else self
+            if not isinstance(base, SymArr):
+                base = SymArr((), [base]) if False else SymArr((1,), [base]).reshape(())  # pragma: no cover
+            shape, ax, src = [], 0, list(base.shape)
+            kept = 0
+            for k in kt:
+                if k is None:
+                    shape.append(1)
+                elif isinstance(k, int) and not isinstance(k, bool):
+                    continue
+                else:
+                    shape.append(src[kept])
+                    kept += 1
+            shape += src[kept:]
+            return SymArr(tuple(shape), list(base.flat))
+        return self._getitem(key)
+
     def _norm_key(self, key):
         if not isinstance(key, tuple):
             key = (key,)
@@ -193,7 +214,7 @@ class SymArr:
                 sel.append(([_as_int(k, n)], False))
         return sel
 
-    def __getitem__(self, key):
+    def _getitem(self, key):
         sel = self._norm_key(key)
         shape = tuple(len(ix) for ix, keep in sel if keep)
         flat = [self.at(idx) for idx in itertools.product(*[ix for ix, _ in sel])]
@@ -543,7 +564,9 @@ def np_summaries():
                                  for x in (a.flat if isinstance(a, SymArr) else list(a))],
         "np.multiply": lambda a, b: SymArr.of(a) * b, "np.size": lambda a, *x: SymArr.of(a).size, "np.shape": lambda a: SymArr.of(a).shape,
         "np.squeeze": lambda a: SymArr(tuple(x for x in SymArr.of(a).shape if x != 1), SymArr.of(a).flat),
-        "np.arange": lambda *a: SymArr.of(list(range(*a))), "np.atleast_1d": lambda a: SymArr.of(a) if SymArr.of(a).ndim else SymArr.of(a).reshape(1),
+        "np.arange": lambda *a, **k: SymArr.of(list(range(*[_as_int(x, 10 ** 9) if not isinstance(x, int) else x for x in a]))),
+        "np.add.outer": lambda a, b: SymArr((SymArr.of(a).size, SymArr.of(b).size), [x + y for x in SymArr.of(a).flatten().flat for y in SymArr.of(b).flatten().flat]),
+        "np.multiply.outer": lambda a, b: outer(a, b), "np.atleast_1d": lambda a: SymArr.of(a) if SymArr.of(a).ndim else SymArr.of(a).reshape(1),
         "np.reshape": reshape, "np.array": array, "np.asarray": array, "np.zeros": zeros, "np.ones": lambda s, *a, **k: SymArr.ones(s),
         "np.eye": lambda n, *a, **k: SymArr.eye(n), "np.identity": lambda n: SymArr.eye(n),
         "np.dot": dot, "np.tensordot": tensordot, "np.kron": kron, "np.append": append, "np.bmat": bmat, "np.transpose": lambda a: SymArr.of(a).T,
